@@ -3,8 +3,10 @@ package c08
 
 import (
 	"fmt"
+	"net/http"
 	"testing"
 
+	"github.com/gookit/rux"
 	"pgregory.net/rapid"
 
 	"verifharness/chain"
@@ -225,3 +227,35 @@ func prop(t *rapid.T) {
 }
 
 func TestProp(t *testing.T) { rapid.Check(t, prop) }
+
+// propHandlerFunc: a rux.HandlerFunc used directly as an http.Handler (HandlerFunc.ServeHTTP) is a request with a
+// chain of one handler; the same contract applies to it.
+func propHandlerFunc(t *rapid.T) {
+	ev.Case()
+	w := chain.NewWorld()
+	var ops []chain.Op
+	for i, k := 0, rapid.IntRange(0, 8).Draw(t, "nops"); i < k; i++ {
+		ops = append(ops, genOp(t))
+	}
+	s := w.NewScript("hf", ops...)
+	var faults []chain.Fault
+	if rapid.IntRange(0, 3).Draw(t, "faulty") == 0 {
+		faults = append(faults, chain.Fault{Write: rapid.IntRange(0, 3).Draw(t, "faultAt"), Accept: rapid.IntRange(0, 3).Draw(t, "accept")})
+	}
+	st := w.NewRequest("GET", "/direct", faults...)
+	var h http.Handler = rux.HandlerFunc(w.Handler(s))
+	h.ServeHTTP(st.Rec, st.Req)
+	want, _ := chain.ModelDispatch([]*chain.Script{s}, chain.Hooks{}, chain.NewRec(faults...), st.Req, nil, false)
+	ev.Eval()
+	got := chain.Outcome{Trace: st.Tr.String(), Log: st.Rec.Log()}
+	if d := chain.Diff(got, want); d != "" {
+		t.Fatalf("HandlerFunc.ServeHTTP: %s\nfaults=%v\nscript: %s", d, faults, s)
+	}
+	if err := st.Rec.CheckCommit(); err != nil {
+		t.Fatalf("HandlerFunc.ServeHTTP: %v\nscript: %s", err, s)
+	}
+	ev.Class("HandlerFunc-as-http.Handler")
+	ev.NonTrivial("hf"+s.String()+fmt.Sprint(faults), func() string { return "HandlerFunc.ServeHTTP " + s.String() })
+}
+
+func TestPropHandlerFunc(t *testing.T) { rapid.Check(t, propHandlerFunc) }
